@@ -69,7 +69,7 @@ Section Idem.
   Hypothesis Hmod : forall v c1 c2, Fa (REL, v) = [(REL, v)] ->
     Fa (REL, add_word c2 NOREFERRER (add_word c1 NOFOLLOW v)) = [(REL, add_word c2 NOREFERRER (add_word c1 NOFOLLOW v))].
   Hypothesis Happ : forall nf nr, nf || nr = true -> Fa (REL, added_rel_value nf nr) = [(REL, added_rel_value nf nr)].
-  Hypothesis Hurl : forall k v, url_attr_of elem = Some k -> Fa (k, v) = [(k, v)].
+  Hypothesis Hurl : forall k v u, url_attr_of elem = Some k -> Fa (k, v) = [(k, v)] -> Fa (k, u) = [(k, u)].
   Hypothesis Hrw : srcRewriter p = None.
   Hypothesis Hstable : forall raw u, valid_url I p raw = Some u -> valid_url I p u = Some u.
   Hypothesis Hnosandbox : forall l, sandbox_pass p elem l = l.
